@@ -93,6 +93,11 @@ func RunReq(prog string, sels []string, files []File, wantJSON bool) string {
 	return "run " + hxs(prog) + " " + s + " " + f + " " + flags
 }
 
+// RunReqFuzz builds a "run" request whose run is made with fuzzing=true (flag z; implementation only).
+func RunReqFuzz(prog string, sels []string, files []File) string {
+	return strings.TrimSuffix(RunReq(prog, sels, files, false), "-") + "z"
+}
+
 // Resp is a parsed response line: "R k=v k=v ...".
 type Resp map[string]string
 
